@@ -44,6 +44,9 @@ pub fn session(rng: &mut Rng, kmax: usize) -> (Vec<Item>, Vec<String>) {
         "(define (sum-to n) (if (= n 0) 0 (+ n (sum-to (- n 1)))))",
         "(define deepsaved #f)",
         "(define (deepk n) (if (= n 0) (call/cc (lambda (k) (set! deepsaved k) 0)) (+ 1 (deepk (- n 1)))))",
+        "(define (kons a b) (list a b))",
+        "(define s (make-string 3 #\\a))",
+        "(define pr (delay (begin (set! g (+ g 1)) (car '()))))",
     ] {
         items.push(same(d));
     }
@@ -54,7 +57,7 @@ pub fn session(rng: &mut Rng, kmax: usize) -> (Vec<Item>, Vec<String>) {
     let n = 5 + rng.below(8);
     let mut have_saved = false;
     for _ in 0..n {
-        let t = rng.below(16);
+        let t = rng.below(20);
         let val = rng.range(1, 99);
         let d = rng.below(12);
         match t {
@@ -156,6 +159,35 @@ pub fn session(rng: &mut Rng, kmax: usize) -> (Vec<Item>, Vec<String>) {
                     tags.push("probe-reentry".into());
                     items.push(probe(&format!("(saved {})", val)));
                 }
+            }
+            16 => {
+                // the failure happens before control reaches a macro definition in the same form
+                tags.push("fail-before-define-syntax".into());
+                items.push(Item {
+                    a: format!("(begin (set! g {}) (car '()) (define-syntax kons (syntax-rules () ((_ a b) (cons b a)))))", val),
+                    b: format!("(set! g {})", val),
+                    rep: None,
+                    probe: false,
+                });
+                items.push(probe("(kons 1 2)"));
+            }
+            17 => {
+                // a mutator that must refuse its arguments leaves the object untouched
+                tags.push("fail-refused-mutation".into());
+                let a = match rng.below(4) {
+                    0 => format!("(vector-copy! v {} (vector 7 8 9 10))", rng.below(3)),
+                    1 => format!("(vector-copy! v {} v 0 3)", 1 + rng.below(2)),
+                    2 => "(vector-fill! v 9 1 7)".to_string(),
+                    _ => "(string-fill! s #\\z 1 9)".to_string(),
+                };
+                items.push(Item { a, b: "'skipped".into(), rep: None, probe: false });
+                items.push(probe("(list (vector->list v) s)"));
+            }
+            18 => {
+                // a promise whose expression fails stays forceable: a later force runs the expression again
+                tags.push("fail-in-force".into());
+                items.push(Item { a: "(force pr)".into(), b: "(set! g (+ g 1))".into(), rep: None, probe: false });
+                items.push(probe("(list g (force pr))"));
             }
             _ => {
                 tags.push("probe-failing".into());
